@@ -54,6 +54,7 @@ def evaluate(prop, sc, want_trace=False):
         for v in an.check_sync_nodes() + an.check_edges() + an.check_sinks():
             if v.prop == 'C01':
                 V.append(Violation('C02', 'C02.semantics', v.seq, v.detail, **v.info))
+        V += an.check_consumers_ran('C02')
     elif prop == 'C03':
         V += an.check_early_completion() + an.check_bounds() + an.check_handoff() + an.check_stuck()
         V += an.check_spurious_exceptions('C03')
